@@ -1042,4 +1042,20 @@ def container_rules(facts, rep, R3):
         rep.inconc(R3, "from_archive: a loop condition on the cursor position was not evaluated (%s)" % undecided)
     else:
         rep.ok(R3, {"reader_loop": "no position-dependent exit before the last record", "position_conditions": n_pos})
+    # ... nor on the *value* of a word it peeks at: the list has no in-band terminator a record could not also start
+    # with (a spec with no optional field present has an all-zero flag word)
+    for bi_ in sorted(lblocks):
+        tt_ = par.blocks[bi_]["term"]
+        if tt_["k"] != "switch" or tt_.get("dty") in ("bool", "isize"):
+            continue
+        d_ = par.term_of_operand(tt_["d"])
+        if d_[0] == "discr" or not any(x[0] == "call" and re.search(r"read_(u8|u16|u32|i32)$", x[1]) for x in walk(d_)):
+            continue
+        exits = [v_ for v_, b_ in tt_["targets"] if b_ not in lblocks]
+        if tt_["otherwise"] not in lblocks and not exits:
+            exits = ["any other value"]
+        if exits:
+            rep.violation(R3, par.name, "stops-on-word", "the spec loop ends when a word read from the archive equals %s (`%s`): a spec whose flag word has that value (no optional field present gives 0) is taken for the end of the list, and it and every later spec are dropped" % (
+                exits[0], fmt(d_)[:60]), "%s:%s" % (par.file, tt_.get("line")))
+            break
 
